@@ -651,6 +651,34 @@ func (c *Ctx) FPBin(op string, a, b *Term) *Term {
 		}
 		return c.FPConst64(r)
 	}
+	if b.Const {
+		w := a.Sort.W
+		var y float64
+		if w == 32 {
+			y = float64(math.Float32frombits(uint32(b.U)))
+		} else {
+			y = math.Float64frombits(b.U)
+		}
+		switch op {
+		case "fp.sub":
+			// x - (+0) = x for every x (also -0 and NaN) under round-to-nearest
+			if y == 0 && !math.Signbit(y) {
+				return a
+			}
+		case "fp.div":
+			// x / 2^k = x * 2^-k exactly (both are the correctly rounded value of the same real) when 2^-k is a normal number
+			if fr, _ := math.Frexp(math.Abs(y)); fr == 0.5 && !math.IsInf(y, 0) {
+				inv := 1 / y
+				minNormal, maxFinite := 0x1p-1022, math.MaxFloat64
+				if w == 32 {
+					minNormal, maxFinite = 0x1p-126, math.MaxFloat32
+				}
+				if math.Abs(inv) >= minNormal && math.Abs(inv) <= maxFinite {
+					return c.mk(&Term{Op: "fp.mul", Sort: a.Sort, Args: []*Term{a, c.fpConst(w, inv)}})
+				}
+			}
+		}
+	}
 	return c.mk(&Term{Op: op, Sort: a.Sort, Args: []*Term{a, b}})
 }
 
@@ -671,6 +699,22 @@ func (c *Ctx) FPCmp(op string, a, b *Term) *Term {
 			return c.Bool(x > y)
 		case "fp.geq":
 			return c.Bool(x >= y)
+		}
+	}
+	if op == "fp.eq" {
+		// comparisons with zero look through exact, zero-preserving operations:
+		// sqrt(w) = ±0 iff w = ±0; a widening conversion is exact
+		x, z := a, b
+		if x.Const {
+			x, z = b, a
+		}
+		if z.Const && fpVal(z) == 0 && !x.Const {
+			switch {
+			case x.Op == "fp.sqrt":
+				return c.FPCmp("fp.eq", x.Args[0], c.fpConst(x.Args[0].Sort.W, 0))
+			case x.Op == "fp.to_fp" && x.Args[0].Sort.K == SFP && x.Args[0].Sort.W < x.Sort.W:
+				return c.FPCmp("fp.eq", x.Args[0], c.fpConst(x.Args[0].Sort.W, 0))
+			}
 		}
 	}
 	return c.mk(&Term{Op: op, Sort: BoolSort, Args: []*Term{a, b}})
